@@ -159,7 +159,8 @@ class Property(cssutils.util.Base):
                     self._priority,
                     self._literalpriority,
                 )
-                oldvalue = self.seqs[1].cssText
+                # (the value object is changed in place)
+                oldvalue = self.seqs[1], self.seqs[1].seq, self.seqs[1].wellformed
                 try:
                     self.wellformed = True
                     self.name = nametokens
@@ -178,12 +179,9 @@ class Property(cssutils.util.Base):
                         self._priority,
                         self._literalpriority,
                     ) = old
-                    if self.seqs[1].cssText != oldvalue:
-                        # the value object is changed in place
-                        if oldvalue:
-                            self.seqs[1].cssText = oldvalue
-                        else:
-                            self.seqs[1] = PropertyValue(parent=self)
+                    self.seqs[1] = oldvalue[0]
+                    oldvalue[0]._setSeq(oldvalue[1])
+                    oldvalue[0].wellformed = oldvalue[2]
                     raise
 
                 # also invalid values are set!
